@@ -182,9 +182,9 @@ class C13(Spec):
         cases = []
         for fmt in ['dense', 'rowscols', 'diag', 'coo', 'csr', 'csc']:
             for under in (False, True):
-                for _ in range(40 if quick else 600):
+                for _ in range(30 if quick else 600):
                     cases.append(partial_case(rng, fmt, under))
-        for _ in range(150 if quick else 3000):
+        for _ in range(110 if quick else 3000):
             cases.append(partial_case(rng))
         for _ in range(40 if quick else 600):
             cases.append(vanish_case(rng))
